@@ -1,7 +1,7 @@
 (* C10/Properties.v — streamed parsing ignores chunking; the callback gets every byte.
    Statements only; proofs in C09/Proofs.v and C10/Proofs.v.  [drive], [spec]: C09/Model.v. *)
 From Coq Require Import ZArith List Bool.
-From RM Require Import Base.Word C08.Model C11.Model C09.Model C09.Grammar C09.Driver C09.Proofs C09.ProofsBytes C10.Model C10.Proofs C10.ProofsCache.
+From RM Require Import Base.Word C08.Model C11.Model C09.Model C09.Grammar C09.Driver C09.Proofs C09.ProofsBytes C10.Model C10.Proofs C10.ProofsCache C10.ProofsAsync.
 Import ListNotations.
 Open Scope Z_scope.
 
@@ -60,6 +60,43 @@ Theorem c10_table_chunk_independent :
 Proof. exact table_chunk_independent. Qed.
 Print Assumptions c10_table_chunk_independent.
 
+Definition bl (bs : list Z) : rle := map (fun b => (b, 1)) bs.
+Definition ex_lines : list rle :=
+  [ bl [77;79;68;85;76;69;32;97;32;98;32;99;32;100];                 (* MODULE a b c d *)
+    bl [70;73;76;69;32;49;32;120];                                   (* FILE 1 x *)
+    bl [70;85;78;67;32;49;48;32;52;32;48;32;102];                    (* FUNC 10 4 0 f *)
+    bl [49;48;32;52;32;49;32;49];                                    (* 10 4 1 1 *)
+    bl [80;85;66;76;73;67;32;50;48;32;48;32;103;13] ].               (* PUBLIC 20 0 g\r *)
+
+(* parse_async ([drive_async]: the same loop, reading from the current HTTP chunk and fetching the
+   next one when it is used up) over any sequence of non-empty chunks that make up the input ends
+   like parse ([drive]) under the schedule of the reads it performs: same result, same final
+   state apart from the reader.  So everything proved about [drive] for all schedules holds for it. *)
+Theorem c10_async_is_sync :
+  forall (L : Type) (llen : L -> Z) (PS : Type) (init_ps : PS)
+         (recog : PS -> L -> PS + Z) (bump : PS -> PS) (lineno : PS -> Z),
+    (forall l, 1 <= llen l) ->
+    forall (lines : list L) (tail : Z) (chunks : list Z),
+    Forall (fun c => 0 < c) chunks -> zsum chunks = input_len L llen lines tail ->
+    exists sch r s1 s2,
+      drive_async L llen PS init_ps recog bump lineno lines tail chunks = Ret (r, s1) /\
+      drive L llen PS init_ps recog bump lineno lines tail sch = Ret (r, s2) /\
+      erase L PS s1 = erase L PS s2.
+Proof. exact async_is_sync. Qed.
+Print Assumptions c10_async_is_sync.
+
+Theorem c10_async_chunk_independent :
+  forall (L : Type) (llen : L -> Z) (PS : Type) (init_ps : PS)
+         (recog : PS -> L -> PS + Z) (bump : PS -> PS) (lineno : PS -> Z),
+    (forall l, 1 <= llen l) ->
+    forall (lines : list L) (tail : Z) (chunks : list Z),
+    short_lines llen lines tail ->
+    Forall (fun c => 0 < c) chunks -> zsum chunks = input_len L llen lines tail ->
+    exists s, drive_async L llen PS init_ps recog bump lineno lines tail chunks
+              = Ret (spec L PS init_ps recog lineno lines tail, s).
+Proof. exact async_is_spec. Qed.
+Print Assumptions c10_async_chunk_independent.
+
 (* The parser contract assumed by C16 (symbol cache): [parse_bytes] is the whole-input verdict
    (table without url, url of the last INFO URL record).  Appending `INFO URL <u>` (after a '\n'
    if the body lacks one: an accepted body never does) to an accepted body gives the same table
@@ -69,6 +106,14 @@ Theorem c10_cached_form_parse :
     url_ok u -> parse_bytes b = Some (t, x) -> parse_bytes (cached_form b u) = Some (t, Some u).
 Proof. exact cached_form_parse. Qed.
 Print Assumptions c10_cached_form_parse.
+
+(* parse_async on 3 HTTP chunks of a 62-byte file (sizes 20, 1, 41) *)
+Example c10_nonvacuous_async :
+  match drive_async rle cllen pst init_pst recog_pst bump_pst lineno_pst ex_lines 0 [20; 1; 41] with
+  | Ret (ROk p, s) => (zlen (p_files p), cbsum s, nrd s)
+  | _ => (-1, 0, 0)
+  end = (1, 62, 4).
+Proof. vm_compute. reflexivity. Qed.
 
 Example c10_nonvacuous_cached :
   let body := [77;79;68;85;76;69;32;97;32;98;32;99;32;100;10; 73;78;70;79;32;85;82;76;32;111;108;100;10;
@@ -81,13 +126,6 @@ Proof. vm_compute. reflexivity. Qed.
 
 (* non-vacuity: a file with a FUNC group and a CFI group, read 1 byte / 7 bytes at a time and
    whole: short_lines holds and the three runs agree with spec (Ok, 1 file, 1 public) *)
-Definition bl (bs : list Z) : rle := map (fun b => (b, 1)) bs.
-Definition ex_lines : list rle :=
-  [ bl [77;79;68;85;76;69;32;97;32;98;32;99;32;100];                 (* MODULE a b c d *)
-    bl [70;73;76;69;32;49;32;120];                                   (* FILE 1 x *)
-    bl [70;85;78;67;32;49;48;32;52;32;48;32;102];                    (* FUNC 10 4 0 f *)
-    bl [49;48;32;52;32;49;32;49];                                    (* 10 4 1 1 *)
-    bl [80;85;66;76;73;67;32;50;48;32;48;32;103;13] ].               (* PUBLIC 20 0 g\r *)
 Example c10_nonvacuous_short : short_lines cllen ex_lines 0.
 Proof.
   unfold short_lines, ex_lines. split; [|apply Z.ltb_lt; vm_compute; reflexivity].
